@@ -16,8 +16,8 @@
 #include <set>
 #include <vector>
 
-enum { OP_ADD = 0, OP_DROP, OP_DESTROY, OP_DESTROY_DELAY, OP_SIZE };
-static const char* const OPN[] = {"add", "drop", "destroy", "destroy_delay", "size"};
+enum { OP_ADD = 0, OP_DROP, OP_DESTROY, OP_DESTROY_DELAY, OP_SIZE, OP_ADD_EMPTY };
+static const char* const OPN[] = {"add", "drop", "destroy", "destroy_delay", "size", "add_empty"};
 
 namespace {
 struct Obj;
@@ -43,6 +43,7 @@ struct State {
     std::vector<std::shared_ptr<Obj>>* parked = nullptr;
     std::mutex park_mx;
     int parked_total = 0;
+    int empties = 0;  // empty pointers handed to the container (param empty=1)
 };
 State* S;
 
@@ -136,6 +137,14 @@ struct WL {
     {
         int mode;
         bool thr;
+        if (!p) {
+            // an empty pointer handed to the container (param empty=1) is no object: it is never
+            // "reaped", so no callback belongs to it (seed C16-j)
+            gsim::Oracle o;
+            gsim::fail("callback_without_object", "the pre-destruction callback ran with an empty "
+                       "pointer: no object handed to the container corresponds to it");
+            return;
+        }
         {
             gsim::Oracle o;
             S->objs[p.get()].callbacks++;
@@ -230,6 +239,17 @@ struct WL {
                     break;
                 }
                 case OP_SIZE: gsim::hash_mix((uint64_t)dd->size()); break;
+                case OP_ADD_EMPTY: {
+                    // legal, if pointless: an empty shared_ptr is no object; the container may keep
+                    // or drop the entry, but nothing is destroyed and no callback is due
+                    {
+                        gsim::Oracle o;
+                        S->empties++;
+                    }
+                    dd->addObjectsToBeDestroyed(Ptr{});
+                    gsim::probe("dd.empty_pointer_added");
+                    break;
+                }
                 default: break;
             }
             if (gsim::held_exclusive())
@@ -258,6 +278,7 @@ struct WL {
         st.dtor_mode = gsim::knob("dtor", 0, 3);
         st.readd_in_dtor = gsim::knob("readd_in_dtor", 0, 1) != 0;
         if (st.throwing && st.cb_mode == 0) st.cb_mode = 1;
+        const bool with_empty = gsim::param_int("empty", 0) != 0;
         if (!gsim::prog_loaded()) {
             int n = single_thread ? 1 : 2 + gsim::gen_int(3);
             gsim::prog_reset(n);
@@ -266,7 +287,9 @@ struct WL {
                 for (int i = 0; i < k; i++) {
                     static const int pool[] = {OP_ADD, OP_ADD, OP_ADD, OP_DROP, OP_DROP, OP_DESTROY,
                                                OP_DESTROY, OP_DESTROY_DELAY, OP_SIZE};
-                    gsim::prog_add(t, {pool[gsim::gen_int(9)], gsim::gen_int(4), 0, 0});
+                    int code = pool[gsim::gen_int(9)];
+                    if (with_empty && gsim::gen_int(6) == 0) code = OP_ADD_EMPTY;
+                    gsim::prog_add(t, {code, gsim::gen_int(4), 0, 0});
                 }
             }
         }
@@ -298,9 +321,10 @@ struct WL {
             size_t alive = 0;
             for (auto& kv : st.objs)
                 if (kv.second.added && !kv.second.destroyed) alive++;
-            if (sz != alive)
-                gsim::fail("conservation", "size() is %zu but %zu added objects are alive (an "
-                           "object was lost or duplicated)", sz, alive);
+            // (empty entries may linger or be swept: the statement says nothing about them)
+            if (sz < alive || sz > alive + (size_t)st.empties)
+                gsim::fail("conservation", "size() is %zu but %zu added objects are alive, %d empty "
+                           "pointers were added (an object was lost or duplicated)", sz, alive, st.empties);
         }
         // sometimes external owners outlive the container
         bool drop_first = gsim::knob("drop_before_container", 0, 1) != 0;
